@@ -33,6 +33,7 @@ def run(rep: Report, repo: Repo):
     twins(rep, mod)
     if not evaluated:
         chain_orientation(rep, mod, Logic(repo))
+    chain_ends(rep, mod)
     transition_table(rep, repo)
     stil_grammar(rep, mod)
     grammar.fresh_parser_rule(rep, 'C18.fresh', mod, 'StilTransformer')
@@ -465,6 +466,11 @@ def chain_orientation(rep, mod, repo_logic=None):
         if not ok:
             rep.violate('C18.rank', mod, f, st[0], f'_maps: `{norm(st[0])}` has shape {rk} but must have one entry per scan cell (shape (n,)): with a scalar the inversion of the first cell is applied to every cell of the chain, '
                         f'so markers in the middle of a chain are mis-applied', node=st[0])
+
+
+def chain_ends(rep, mod):
+    """the parts of the chain rules outside _maps: which element of a chain names the scan-in / scan-out port"""
+    rep.rule('C18.chain', 'a chain is [scan_in] + cells and markers in file order + [scan_out]; si_ports is keyed by its first, so_ports by its last element')
     init = mod.func('StilFile.__init__')
     t = [cz(s) for s in body_no_doc(init)]
     ok = 'self.si_ports=dict(((v[0],k)for(k,v)inscan_chains.items()))' in [x.replace('fork,vin', 'for(k,v)in') for x in t] and 'self.so_ports=dict(((v[-1],k)for(k,v)inscan_chains.items()))' in [x.replace('fork,vin', 'for(k,v)in') for x in t]
